@@ -90,14 +90,18 @@ class Sym:
 
 class Arr:
     """1-D array value: length n (z3 Int term or python int), element closure."""
-    __slots__ = ('n', 'fn', 'k', 'tag', 'view')
+    __slots__ = ('n', 'fn', 'k', 'tag', 'view', 'facts')
 
-    def __init__(self, n, fn, k, tag=None, view=False):
+    def __init__(self, n, fn, k, tag=None, view=False, facts=None):
         self.n = n if not isinstance(n, int) else z3.IntVal(n)
         self.fn = fn
         self.k = k
         self.tag = tag
         self.view = view
+        # statically known consequences of how the array was built:
+        #   distinct: elements pairwise different
+        #   within:   boolean mask m such that every element e satisfies m[e]
+        self.facts = facts or {}
 
     def at(self, i):
         if isinstance(i, int):
